@@ -5,9 +5,12 @@ ID="$1"; shift
 PROPS="${*:-$ID}"
 P=/verif/seeded/$ID/patch.rebased.diff; [ -f "$P" ] || P=/verif/seeded/$ID/patch.diff
 if [ -n "$(git -C /repo status --porcelain)" ]; then echo "/repo not clean"; exit 2; fi
+BK=$(mktemp -d /var/tmp/evbk.XXXXXX); cp -r /verif/evidence "$BK/" 2>/dev/null
 git -C /repo apply "$P" || { echo "SEED $ID: patch does not apply"; exit 3; }
 for p in $PROPS; do
   out=$(/verif/vcheck "$p" quick 2>&1); rc=$?
   echo "SEED $ID prop $p exit=$rc"; echo "$out" | grep -E "^VIOLATION|^property" | cut -c1-260
 done
 git -C /repo checkout -- .
+# evidence committed in /verif must come from the unchanged tree: put back what was there before the seeded run
+rm -rf /verif/evidence; cp -r "$BK/evidence" /verif/evidence; rm -rf "$BK"
